@@ -108,6 +108,8 @@ def _bench_details(r):
         d['ignore_timeouts'] = True
     if r.get('maxtime') is not None:
         d['max_invocation_time'] = r['maxtime']
+    if r.get('pif') is not None:
+        d['parallel_interference_factor'] = r['pif']
     return d
 
 
@@ -189,6 +191,18 @@ def render_time_output(k, o, wrapper):
     return ''.join(l + '\n' for l in lines)
 
 
+def render_jmh_output(k, o):
+    """a JMH log: iteration lines, `# Run complete`, and the summary table (whose header contains the word Error)"""
+    lines = ['# JMH version: 1.21', '# Benchmark: bench.B', '# Warmup: none']
+    for j in range(1, o.get('dps', 0) + 1):
+        lines.append('Iteration %3d: %d.000 ms/op' % (j, 1000 * k + j))
+    if o.get('marker'):
+        lines.insert(o.get('marker_pos', 1) and len(lines) or 0, o.get('marker_text') or 'Error: simulated')
+    lines.append('# Run complete. Total time: 00:00:01')
+    lines.append('Benchmark   Mode  Cnt  Score   Error  Units')
+    return ''.join(l + '\n' for l in lines)
+
+
 def render_output(i, k, o, deco=None):
     """what the k-th started process of run i prints for outcome o"""
     deco = deco or {}
@@ -224,6 +238,7 @@ class Script(object):
         self.lock = threading.Lock()
         self.gate = None       # thread controller (parallel scenarios)
         self.unknown = []
+        self.runaway = []      # runs started more often than N + 40 times
         self.build_runs = {}   # build key -> how often it ran
         self.unbuilt_starts = []   # benchmark starts whose build had not run in this session
         self.commands = []     # [run, invocation, time wrapper] of every benchmark start
@@ -251,6 +266,13 @@ class Script(object):
             rec['run'], rec['inv'], rec['k'] = i, inv, k
             wrapper = time_wrapper(args)
             self.commands.append([i, inv, wrapper])
+        # a run that is restarted without bound must not hang the check: beyond the cap the process "is missing"
+        cap = self.scn['runs'][i]['N'] + 40
+        if k > cap:
+            with self.lock:
+                if i not in self.runaway:
+                    self.runaway.append(i)
+            return drive.Outcome(127, '')
         sc = self.sess['scripts'][i] if i < len(self.sess['scripts']) else []
         o = sc[k - 1] if k <= len(sc) else DEFAULT_FAIL
         if self.gate is not None:
@@ -276,6 +298,8 @@ class Script(object):
             return drive.Outcome(interrupt=True)
         if self.scn['runs'][i].get('gauge') == 'Time':
             return drive.Outcome(o['rc'], render_time_output(k, o, wrapper))
+        if self.scn['runs'][i].get('gauge') == 'JMH':
+            return drive.Outcome(o['rc'], render_jmh_output(k, o))
         return drive.Outcome(o['rc'], render_output(i, k, o, self.scn.get('deco')))
 
 
@@ -410,7 +434,7 @@ def run_session(workdir, scn, sess, timeout_guard=None):
            'mentions_missing_adapter': ("Couldn't find gauge adapter" in res.stdout + res.stderr),
            'order': grabbed.get('order'), 'loaded': grabbed.get('loaded'),
            'log': [list(x) for x in script.log], 'unknown_starts': script.unknown,
-           'commands': script.commands, 'probes': script.probes, 'unbuilt_starts': script.unbuilt_starts,
+           'commands': script.commands, 'probes': script.probes, 'runaway': script.runaway, 'unbuilt_starts': script.unbuilt_starts,
            'nchoices': pos['i'], 'out_tail': (res.stdout + res.stderr)[-600:]}
     if controller is not None:
         obs['released'] = controller.released
